@@ -24,6 +24,9 @@ func checkC19(c *Ctx) {
 	r193(c)
 	r194(c)
 	r195(c)
+	// what the record reports about the request is read after the handlers ran: nothing may have rewritten it (shared with C13)
+	c.floor("R19.6 logged-request-fields-unaltered", 10)
+	r131touches(c, "R19.6 logged-request-fields-unaltered")
 }
 
 func r191(c *Ctx) {
